@@ -679,3 +679,8 @@ package server
 //@   requires self != nil
 //@   at call ProcessParseLockData assert C14.transparency.decode-data: lockCommand != nil && inlineLockDecode(lockCommand, buf)
 //@   modifies all
+
+//@ func (*BinaryServerProtocol).GetLockCommandLocked
+//@   requires self != nil
+//@   ensures result != nil
+//@   modifies LockCommandQueue.*
